@@ -411,6 +411,7 @@ def griffe_view(root: Path, pkg):
         out = {}
         present = []
         stack = [top]
+        visited = {top.path}
         while stack:
             mod = stack.pop()
             ns = {}
@@ -424,11 +425,16 @@ def griffe_view(root: Path, pkg):
                         ft = mem.final_target
                         ns[name] = [ft.kind.value, ft.path]
                         present.extend(check_presentation(mem, ft))
+                        if ft.is_module and ft.path == mod.path + "." + name and ft.path not in visited:
+                            # the submodule member was replaced by an alias of itself (back-and-forth wildcard imports): still this module's submodule
+                            visited.add(ft.path)
+                            stack.append(ft)
                     except (AliasResolutionError, CyclicAliasError) as e:
                         ns[name] = ["unresolved", mem.target_path, type(e).__name__]
                 else:
                     ns[name] = [mem.kind.value, mem.path]
-                    if mem.is_module:
+                    if mem.is_module and mem.path not in visited:
+                        visited.add(mem.path)
                         stack.append(mem)
             ex = mod.exports
             if ex is not None:
@@ -1423,9 +1429,9 @@ def check_packages(ctx, pkgs, stream, direct=True):
             if not direct:
                 # cyclic packages: whether a chain through a cycle resolves depends on resolution order and caching (C06's subject)
                 # ... and a submodule hidden behind such an alias (the cyclic alias replaced the submodule member) is not visited
+                unres = {(x[0], x[1]) for x in dmi if ["unresolved"] in (x[2], x[3])}
                 tangled = star_cycle_dependents(pkg)
                 dmi = [x for x in dmi if not (x[0] in tangled and x[1] not in ("<module>", "__all__") and x[2] is not None and x[3] is not None)]
-                unres = {(x[0], x[1]) for x in dmi if ["unresolved"] in (x[2], x[3])}
                 dmi = [x for x in dmi if ["unresolved"] not in (x[2], x[3])
                        and not (x[1] == "<module>" and tuple(x[0].rsplit(".", 1)) in unres)]
             ctx.count("c_compared")
